@@ -220,7 +220,55 @@ def constructed_mutations(depth):
     # an attribute going back to None
     out.append(('ChangeField.attr-to-None', [MU.ChangeField(
         'Item', 't', initial=None, max_length=None)]))
+    # fields of project-specific classes ADDED TO THE MODELS: the mutations
+    # are the ones Diff.evolution() hints for (stored signature, stored
+    # signature + the field); none of them needs a value from the user
+    for which in DIFF_ADDED:
+        out.append(('Diff.add-field:' + which, None))
     return out
+
+
+DIFF_ADDED = ('m2m-subclass', 'fk-subclass-null', 'char-subclass-null',
+              'o2o-subclass-null')
+
+
+def diff_hinted(which, old_sig):
+    """Mutations hinted by Diff for one added field of a custom class."""
+    from django.db import models
+    from django_evolution.diff import Diff
+    from django_evolution.signature import FieldSignature
+    base, attrs, related = {
+        'm2m-subclass': (models.ManyToManyField, {}, 'va.Item'),
+        'fk-subclass-null': (models.ForeignKey, {'null': True}, 'va.Item'),
+        'o2o-subclass-null': (models.OneToOneField, {'null': True},
+                              'va.Item'),
+        'char-subclass-null': (models.CharField,
+                               {'null': True, 'max_length': 12}, None),
+    }[which]
+    cls = custom_class('va.fields', 'X' + base.__name__, base)
+    new_sig = old_sig.clone()
+    new_sig.get_app_sig('va').get_model_sig('Item').add_field_sig(
+        FieldSignature(field_name='n1', field_type=cls, field_attrs=attrs,
+                       related_model=related))
+    return list(Diff(old_sig, new_sig).evolution().get('va', []))
+
+
+def custom_class(modname, clsname, base):
+    import sys
+    import types
+    mod = sys.modules.get(modname)
+    if mod is None:
+        parent = modname.split('.')[0]
+        if parent not in sys.modules:
+            pm = types.ModuleType(parent)
+            pm.__path__ = []
+            sys.modules[parent] = pm
+        mod = types.ModuleType(modname)
+        sys.modules[modname] = mod
+    if not hasattr(mod, clsname):
+        setattr(mod, clsname, type(clsname, (base,),
+                                   {'__module__': modname}))
+    return getattr(mod, clsname)
 
 
 def custom_field_classes():
@@ -276,7 +324,18 @@ def check_constructed(label, muts, add, stats):
     B.restore(img, 'default')
     old_sig = D.stored_signature()
     replay = {'kind': 'constructed', 'label': label}
-    kind = c06kind(label)
+    if label.startswith('Diff.add-field:'):
+        import sys as _sys
+        _sys.modules.pop('va.fields', None)
+        try:
+            muts = diff_hinted(label.split(':', 1)[1], old_sig)
+        except Exception as e:
+            add('C13|hint-raises|%s|%s' % (type(e).__name__, label), replay,
+                {'error': str(e)[:300]})
+            return
+        kind = label
+    else:
+        kind = c06kind(label)
     try:
         text = render(mods['va'], muts)
     except Exception as e:
